@@ -235,8 +235,8 @@ func lruConcCase(r *rand.Rand, tier string) Case {
 	go func() { wg.Wait(); close(fin) }()
 	select {
 	case <-fin:
-	case <-time.After(60 * time.Second):
-		return Case{Op: "same " + X("all goroutines return"), Impl: X("deadlock: goroutines still blocked after 60s"), Tags: []string{"lru-conc:deadlock"}, Nontrivial: true}
+	case <-time.After(20 * time.Second):
+		return Case{Op: "same " + X("all goroutines return"), Impl: X("deadlock: goroutines still blocked after 20s"), Tags: []string{"lru-conc:deadlock"}, Nontrivial: true}
 	}
 	tags := []string{fmt.Sprintf("cap:%d", capN), fmt.Sprintf("goroutines:%d", min(g, 8)), map[bool]string{true: "history:small", false: "history:large"}[small]}
 	if p := panicked.Load(); p != nil {
